@@ -67,3 +67,52 @@ Proof.
   - intros (_ & H). cbn in H. lia.
   - vm_compute. congruence.
 Qed.
+
+(** [make_seq_feature_map]: every alignment span [s, e) goes to the span of the residues its columns hold,
+    i.e. [residues before s, residues before e) — also when s or e lies inside a gap run or in a trailing gap *)
+Lemma make_seq_coords_spec m spans : WF m ->
+  Forall (fun se : Z * Z => 0 <= fst se <= len m /\ 0 <= snd se <= len m) spans ->
+  make_seq_coords m spans =
+  Ok (map (fun se : Z * Z => (residues (firstn (Z.to_nat (fst se)) (abs m)), residues (firstn (Z.to_nat (snd se)) (abs m)))) spans).
+Proof.
+  intros Hwf. induction spans as [|(s, e) t IH]; intros HF; [reflexivity|].
+  inversion HF as [|? ? (Hs & He) Ht]; subst. cbn [fst snd] in Hs, He.
+  cbn [make_seq_coords map fst snd]. rewrite (get_seq_index_spec m Hwf s) by lia.
+  rewrite (get_seq_index_spec m Hwf e) by lia. cbn [bind]. rewrite (IH Ht). reflexivity.
+Qed.
+
+(** the image never leaves the sequence: 0 <= start <= end <= parent_length *)
+Lemma residues_app x y : residues (x ++ y) = residues x + residues y.
+Proof. induction x as [|[|] x IHx]; cbn [app residues]; rewrite ?IHx; lia. Qed.
+
+Lemma firstn_plus {A} (l : list A) : forall a b, firstn (a + b) l = firstn a l ++ firstn b (skipn a l).
+Proof.
+  induction l as [|x l IH]; intros a b.
+  - now rewrite !firstn_nil, skipn_nil, firstn_nil.
+  - destruct a; [reflexivity|]. cbn [Nat.add firstn skipn app]. now rewrite IH.
+Qed.
+
+Lemma residues_firstn_mono (k : list bool) a b : 0 <= a -> a <= b ->
+  residues (firstn (Z.to_nat a) k) <= residues (firstn (Z.to_nat b) k).
+Proof.
+  intros Ha Hab. replace (Z.to_nat b) with (Z.to_nat a + Z.to_nat (b - a))%nat by lia.
+  rewrite firstn_plus, residues_app.
+  pose proof (residues_nonneg (firstn (Z.to_nat (b - a)) (skipn (Z.to_nat a) k))). lia.
+Qed.
+
+Lemma residues_count_true k : residues k = count_true k.
+Proof. induction k as [|[|] k IH]; cbn [residues count_true]; lia. Qed.
+
+Lemma seq_span_bounds m s e : WF m -> 0 <= s -> s <= e -> e <= len m ->
+  0 <= residues (firstn (Z.to_nat s) (abs m)) <= residues (firstn (Z.to_nat e) (abs m)) /\
+  residues (firstn (Z.to_nat e) (abs m)) <= parent_length m.
+Proof.
+  intros Hwf Hs Hse He.
+  pose proof (residues_nonneg (firstn (Z.to_nat s) (abs m))) as N0.
+  split; [split; [exact N0|apply residues_firstn_mono; lia]|].
+  assert (Hall : residues (firstn (Z.to_nat (len m)) (abs m)) = parent_length m).
+  { rewrite firstn_all2 by (pose proof (zlen_abs m Hwf); unfold zlen in *; lia).
+    rewrite residues_count_true. pose proof (from_mask_abs m Hwf) as Fm.
+    rewrite <- Fm at 2. reflexivity. }
+  rewrite <- Hall. apply residues_firstn_mono; lia.
+Qed.
